@@ -506,6 +506,10 @@ pub fn run_c04(ctx: &Ctx) -> ! {
             violations.push(Violation::new("silent_failure", format!("[{}] non-zero exit without a message", cfg_name(&c)), json!({"config": cfg_name(&c)})));
         } else if d1.get("untouched") != p.dst0.0.get("untouched") || d1.get("clash/inside") != p.dst0.0.get("clash/inside") || snap(&p.env.src()) != p.src0 {
             violations.push(Violation::new("failed_run_touched_outside_plan", format!("[{}] a failing run touched files outside the plan", cfg_name(&c)), json!({"config": cfg_name(&c)})));
+        } else if d1.get("dirc") != p.dst0.0.get("dirc") {
+            // no --delete: the destination FILE that sits where the source has a directory is not in the plan
+            // (the plan holds dirc/f) and nothing may remove or replace it
+            violations.push(Violation::new("removed_without_delete", format!("[{}] the destination file `dirc` (source has a directory there) was removed or replaced although --delete was not given", cfg_name(&c)), json!({"config": cfg_name(&c)})).with("direction", json!(dir)));
         }
     }
     // one transfer's ssh process dies mid-stream (killed by a signal, or a non-zero exit): the run must
@@ -1056,6 +1060,37 @@ pub fn c15_cli_part(thorough: bool, evals: &AtomicU64, nontrivial: &AtomicU64) -
                 if d1.get(k) != p.dst0.0.get(k) {
                     out.push(Violation::new("excluded_path_touched", format!("[{dir} delete={delete} exclude *.log, source file `c` vs destination directory `c/`] excluded destination path {k:?} was modified or removed"), json!({"part":"cli_excludes_clash","direction":dir,"delete":delete})).with("direction", json!(dir)));
                 }
+            }
+        }
+    }
+    // the reverse clash: the destination has a FILE where the source has a DIRECTORY; the file is protected by a
+    // whole-path pattern that does not match the source file beneath it. Whatever the run does (it may fail), the
+    // excluded destination file must survive, with and without --delete, and a dry run must not announce less
+    // than the real run does
+    for dir in ["local", "push", "pull"] {
+        for delete in [false, true] {
+            let env = RunEnv { sc: Scratch::new("c15clash2") };
+            for d in ["home", "cwd", "rhome"] {
+                let _ = std::fs::create_dir_all(env.sc.path(d));
+            }
+            put_file(&env.src(), "pkg/cache/idx", b"index", 1_600_000_001, 0);
+            put_file(&env.src(), "other", b"o", 1_600_000_002, 0);
+            put_file(&env.dst(), "pkg/cache", b"a FILE, excluded by its whole path", 1_500_000_001, 0);
+            put_file(&env.dst(), "pkg/keep", b"k", 1_500_000_002, 0);
+            let pats = vec!["pkg/cache".to_string()];
+            if !crate::c19::ref_excluded("pkg/cache", &pats) || crate::c19::ref_excluded("pkg/cache/idx", &pats) {
+                continue; // the reference matcher does not separate the two paths: nothing to check
+            }
+            let p = Prepared { src0: snap(&env.src()), dst0: snap(&env.dst()), rhome0: snap(&env.rhome()), env };
+            let c = Cfg { dir, delete, exclude: "pkg/cache", jobs: 2, verbose: false, template: "clash2" };
+            let _o = run_sync(&p.env, &c, &[], None);
+            evals.fetch_add(1, Ordering::Relaxed);
+            let (d1, _) = snap(&p.env.dst());
+            if d1.get("pkg/cache") != p.dst0.0.get("pkg/cache") {
+                out.push(Violation::new("excluded_path_touched", format!("[{dir} delete={delete} exclude pkg/cache, destination file `pkg/cache` vs source directory `pkg/cache/`] the excluded destination file was modified, removed or replaced by a directory"), json!({"part":"cli_excludes_clash2","direction":dir,"delete":delete})).with("direction", json!(dir)));
+            }
+            if !delete && d1.get("pkg/keep") != p.dst0.0.get("pkg/keep") {
+                out.push(Violation::new("removed_without_delete", format!("[{dir} exclude pkg/cache] destination-only file pkg/keep changed without --delete"), json!({"part":"cli_excludes_clash2","direction":dir,"delete":delete})).with("direction", json!(dir)));
             }
         }
     }
